@@ -18,9 +18,12 @@ from hypothesis import strategies as st
 
 from vlib import isolate
 
+import beartype  # noqa: F401  pre-imported (not used) so that forked children do not pay the import cost
+import beartype.roar  # noqa: F401
+
 PID = 'C17'
 LEVEL = 'exploration'
-BUDGET = {'quick': 1200, 'thorough': 40000}
+BUDGET = {'quick': 900, 'thorough': 40000}
 CAP_S = {'quick': 200, 'thorough': 2400}
 MAX_SHARDS = 3   # fork throughput of this sandbox (~80/s) does not scale with processes
 RULE = ('case = history of <=6 BeartypeConf(**kw) calls + a final one, each kw from per-option pools '
